@@ -4,5 +4,5 @@ CONSTANTS
   Script <- S_goStopQuit
   MaxJobs = 2
 SPECIFICATION Spec
-INVARIANTS AtMostOneBest AckNonNeg Quiescent ResultFresh NoDeadlock
+INVARIANTS OptionsInEffectAtGo AtMostOneBest AckNonNeg Quiescent ResultFresh NoDeadlock
 CHECK_DEADLOCK FALSE
